@@ -31,7 +31,7 @@ fn pipeline(program: &Program) -> String {
 
 #[path = "sierra_mutants.rs"]
 mod sierra_mutants;
-use sierra_mutants::{corpus, mutants};
+use sierra_mutants::{corpus, count_mutants, mutants, mutants_at};
 
 #[test]
 fn __verif_n_c14_mutations() {
@@ -43,12 +43,35 @@ fn __verif_n_c14_mutations() {
     let mut cases = 0u64;
     let mut outcomes: std::collections::BTreeMap<String, u64> = Default::default();
     let mut fails: Vec<(String, String)> = vec![];
-    for (name, src) in corpus() {
+    let thorough = std::env::var("VERIF_TIER").map(|t| t == "thorough").unwrap_or(false);
+    let mut seed: u64 = std::env::var("VERIF_SEED").ok().and_then(|s| s.parse().ok()).unwrap_or(0u64) ^ 0x5851f42d4c957f2d;
+    let mut all = corpus();
+    if thorough {
+        // big programs (every libfunc family, circuits, const segments): a seeded sample of their mutation space
+        let mut root = std::path::PathBuf::from(env!("CARGO_MANIFEST_DIR"));
+        root.pop();
+        root.pop();
+        for f in ["crates/cairo-lang-starknet/test_data/libfuncs_coverage__libfuncs_coverage.sierra", "crates/cairo-lang-starknet/test_data/circuit_contract__circuit_contract.sierra", "crates/cairo-lang-starknet/test_data/test_contract__test_contract.sierra"] {
+            if let Ok(s) = std::fs::read_to_string(root.join(f)) { all.push((format!("sample:{}", f.rsplit('/').next().unwrap()), s)); }
+        }
+    }
+    for (name, src) in all {
         let Ok(p) = ProgramParser::new().parse(&src) else { continue };
-        let ms = mutants(&p);
+        let ms = if name.starts_with("sample:") {
+            // a seeded sample of 2500 mutants, built lazily (the full space of a big program does not fit in memory)
+            let n = count_mutants(&p);
+            let mut pick = std::collections::HashSet::new();
+            while pick.len() < 2500.min(n) {
+                seed = seed.wrapping_mul(6364136223846793005).wrapping_add(1442695040888963407);
+                pick.insert((seed >> 33) as usize % n);
+            }
+            mutants_at(&p, &|i| pick.contains(&i))
+        } else { mutants(&p) };
         // run in chunks on big-stack threads (deep recursion in solvers is itself a finding, reported as a panic)
         for (what, q) in ms {
+            if let Ok(only) = std::env::var("VERIF_ONLY_MUTANT") { if format!("{name}: {what}") != only { continue; } }
             cases += 1;
+            if std::env::var("VERIF_TRACE_MUTANTS").is_ok() { eprintln!("MUTANT {name}: {what}"); }
             let h = std::thread::Builder::new().stack_size(64 << 20).spawn(move || catch_unwind(AssertUnwindSafe(|| pipeline(&q)))).unwrap();
             match h.join() {
                 Ok(Ok(o)) => *outcomes.entry(o).or_default() += 1,
